@@ -274,3 +274,107 @@ Qed.
 Theorem linspace_length a b n : length (linspace a b n) = n.
 Proof. unfold linspace. destruct n as [|[|n]]; try reflexivity. now rewrite map_length, seq_length. Qed.
 End InterpProofs.
+
+(* ------------------------------------------------------------------------------------------------ *)
+(* lifting the pointwise theorems to whole runs *)
+Lemma delivered_normalise sample a tg i : delivered sample (a, tg) i = delivered sample (normalise a, tg) i.
+Proof.
+  assert (Hn : normalise (normalise a) = normalise a).
+  { destruct a as [l|r]; [reflexivity|]. cbn [normalise]. destruct (length (hd [] r) =? 1) eqn:E; [reflexivity|].
+    cbn [normalise]. now rewrite E. }
+  unfold delivered. cbn [fst snd]. now rewrite Hn.
+Qed.
+
+Lemma nth_column0 r k : nth k (column 0 r) 0%Qc = nth 0 (nth k r []) 0%Qc.
+Proof.
+  unfold column. exact (map_nth (fun row : row => nth 0 row 0%Qc) r [] k).
+Qed.
+
+(* every accepted input delivers to every unit at every step below `steps` what the specification says *)
+Theorem delivered_spec vectorize steps inp i k : input_ok vectorize steps inp = true -> k < steps ->
+  delivered (fun a s => sample_fixed a k s) inp i = Some (spec_value inp i k).
+Proof.
+  intros Hok Hk. destruct inp as [a tg]. unfold input_ok in Hok. cbn [fst snd] in Hok.
+  apply andb_prop in Hok as [Hok _]. apply andb_prop in Hok as [Hok Hnd]. apply andb_prop in Hok as [Hacc Hlen].
+  destruct a as [l|r].
+  - apply delivered_1d; [exact Hnd|cbn [alen] in Hlen]. apply Nat.leb_le in Hlen. lia.
+  - cbn [alen] in Hlen. apply Nat.leb_le in Hlen. destruct (length (hd [] r) =? 1) eqn:E1.
+    + rewrite delivered_normalise. cbn [normalise]. rewrite E1.
+      rewrite delivered_1d; [|exact Hnd|unfold column; rewrite map_length; unfold row in *; lia].
+      unfold spec_value. cbn [fst snd]. rewrite E1. destruct (index_of i tg); [|reflexivity]. now rewrite nth_column0.
+    + unfold accepted in Hacc. cbn [fst snd normalise] in Hacc. rewrite E1 in Hacc. cbn [is2d negb orb ncols] in Hacc.
+      apply andb_prop in Hacc as [Hn _].
+      destruct (1 <? length tg) eqn:E2.
+      * apply delivered_2d; try assumption; unfold row in *; lia.
+      * assert (Htg : tg = []) by (destruct tg as [|? [|? ?]]; cbn in *; [reflexivity|lia|lia]). subst tg. unfold row in *.
+        unfold delivered, spec_value. cbn [fst snd normalise]. rewrite E1. unfold wiring. cbn [ncols length].
+        destruct ((length (hd [] r) =? 0) && (1 <? length (hd [] r))) eqn:E3; [lia|]. reflexivity.
+Qed.
+
+Theorem forcing_spec vectorize steps inputs i k : forallb (input_ok vectorize steps) inputs = true -> k < steps ->
+  forcing (fun a s => sample_fixed a k s) inputs i = Some (spec_u inputs i k).
+Proof.
+  intros Hall Hk. induction inputs as [|inp inputs IH]; [reflexivity|].
+  cbn [forallb] in Hall. apply andb_prop in Hall as [H1 H2].
+  rewrite forcing_cons, spec_u_cons, (delivered_spec vectorize steps) by assumption. rewrite IH by assumption. reflexivity.
+Qed.
+
+Theorem net_rhs_spec vectorize steps W inputs c k x : forallb (input_ok vectorize steps) inputs = true -> k < steps ->
+  net_rhs W inputs c k x = spec_rhs W inputs c k x.
+Proof.
+  intros Hall Hk. unfold net_rhs, spec_rhs. f_equal. apply map_ext. intros i.
+  now rewrite (forcing_spec vectorize steps) by assumption.
+Qed.
+
+Lemma step_of_ext {C} (f1 f2 : C -> nat -> row -> row * C) s dt t :
+  (forall c y, f1 c t y = f2 c t y) -> forall c y, step_of f1 s dt c t y = step_of f2 s dt c t y.
+Proof.
+  intros H c y. destruct s; cbn [step_of]; unfold euler_step, heun_step; rewrite H.
+  - reflexivity.
+  - destruct (f2 c t y) as [r1 c1]. now rewrite H.
+Qed.
+
+Lemma traj_ext {Y C} (st1 st2 : C -> nat -> Y -> Y * C) t0 bound :
+  (forall t, t < bound -> forall c y, st1 c (t + t0) y = st2 c (t + t0) y) ->
+  forall j i y c, i + j <= bound -> traj st1 t0 i y c j = traj st2 t0 i y c j.
+Proof.
+  intros H. induction j as [|j IH]; intros i y c Hb; [reflexivity|].
+  cbn [traj]. rewrite H by lia. destruct (st2 c (i + t0) y) as [y' c']. apply IH. lia.
+Qed.
+
+Lemma cdiv_mul_lt k n ss : 1 <= ss -> k < cdiv n ss -> k * ss < n.
+Proof.
+  intros Hss Hk. rewrite cdiv_spec in Hk by lia.
+  pose proof (Nat.div_mod n ss ltac:(lia)) as Hdm. pose proof (Nat.mod_upper_bound n ss ltac:(lia)) as Hub.
+  destruct (n mod ss =? 0) eqn:E; nia.
+Qed.
+
+(* C08, whole runs: any network of integrators with edges, any inputs in an accepted form, any number of steps *)
+Theorem run_inputs_partial s vectorize depth T dt W inputs x0 :
+  inputs_guard vectorize depth T dt inputs = true -> rows_fit T dt dt = true -> frame_ok T dt (length x0) = true ->
+  run_inputs s vectorize depth T dt W inputs x0 = Rows (spec_run_inputs s T dt W inputs x0).
+Proof.
+  intros Hg Hfit Hok. unfold inputs_guard in Hg. apply andb_prop in Hg as [Hd Hall].
+  unfold run_inputs.
+  assert (E1 : (2 <=? depth) && negb (length inputs =? 0) = false).
+  { unfold depth_ok in Hd. destruct (2 <=? depth) eqn:Ea; [|reflexivity]. destruct (length inputs =? 0) eqn:Eb; [reflexivity|lia]. }
+  rewrite E1.
+  assert (E2 : forallb (accepted vectorize) inputs = true).
+  { rewrite forallb_forall in *. intros inp Hin. specialize (Hall inp Hin). unfold input_ok in Hall.
+    apply andb_prop in Hall as [Hall _]. apply andb_prop in Hall as [Hall _]. now apply andb_prop in Hall as [Hall _]. }
+  rewrite E2. cbn [negb].
+  assert (E3 : existsb (fun inp => alen (fst inp) <? rnd (T / dt)) inputs = false).
+  { apply not_true_is_false. intros He. apply existsb_exists in He as [inp [Hin Hlt]].
+    rewrite forallb_forall in Hall. specialize (Hall inp Hin). unfold input_ok in Hall.
+    apply andb_prop in Hall as [Hall _]. apply andb_prop in Hall as [Hall _]. apply andb_prop in Hall as [_ Hall]. lia. }
+  rewrite E3.
+  pose proof (run_partial unit (net_rhs W inputs) s T dt None 0%Qc (seq 0 (length x0)) x0 tt) as HR. cbn zeta in HR.
+  rewrite seq_length in HR. rewrite HR by assumption. f_equal.
+  unfold spec_run_inputs, spec_run. apply map_ext_in. intros k Hk. apply filter_In in Hk as [Hk _]. apply in_seq in Hk.
+  apply rows_fit_true in Hfit as [Hss Hc].
+  assert (Hlt : k * rnd (dt / dt) < rnd (T / dt)) by (apply cdiv_mul_lt; [exact Hss|rewrite Hc; lia]).
+  f_equal. f_equal. f_equal.
+  apply (traj_ext _ _ 0 (rnd (T / dt))); [|lia].
+  intros t Ht c y. apply step_of_ext. intros c' y'. replace (t + 0) with t by lia.
+  now apply (net_rhs_spec vectorize (rnd (T / dt))).
+Qed.
